@@ -152,6 +152,9 @@ type propDef struct {
 
 var registry = map[string]*propDef{}
 
+// noConfirm: properties whose violations are schedule dependent (C09, C10)
+var noConfirm = map[string]bool{"C09": true, "C10": true}
+
 // register makes a property replayable from a file.
 func register[C any](id string, check func(c C, env *Env) *Violation) {
 	registry[id] = &propDef{id: id, replay: func(raw json.RawMessage, env *Env) *Violation {
@@ -188,6 +191,12 @@ func runProp[C any](t *testing.T, id string, gen func(t *rapid.T) C, check func(
 		if v.Class == "inconclusive" {
 			stats.Inconcl(v.Msg)
 			return
+		}
+		if noConfirm[id] {
+			// schedule-dependent properties: the observed difference / race report is the witness; a
+			// second run may well pass
+			saveReplay(id, c, v)
+			rt.Fatalf("property %s violated [%s]: %s", id, v.Class, v.Msg)
 		}
 		// confirm in a brand-new child (guards against state leaking between sessions of one child)
 		v2 := check(c, &Env{Fresh: true, Stats: &Stats{Classes: map[string]int{}, ntSet: map[uint64]struct{}{}}})
@@ -233,4 +242,11 @@ func ReplayOne(path string) (*ReplayFile, *Violation) {
 		return &rf, &Violation{Msg: "unknown property " + rf.Property, Class: "bad-replay"}
 	}
 	return &rf, def.replay(rf.Case, &Env{Fresh: true, Stats: &Stats{Classes: map[string]int{}, ntSet: map[uint64]struct{}{}}})
+}
+
+func tier() string {
+	if v := os.Getenv("VERIF_TIER"); v != "" {
+		return v
+	}
+	return "quick"
 }
